@@ -106,6 +106,12 @@ structure Setting.OK (Z : Setting) : Prop where
   /-- the writer side accepts everything (the Session model has no writer failure) -/
   env : ∀ k, (Z.P.env.plan k).ans = .store ∧ (Z.P.env.plan k).openOk = true ∧ ∀ j, (Z.P.env.plan k).writeOk j = true
   dz : Nonempty (DzOK Z.P)
+  /-- `dec` only looks at WHICH ESIs are held -/
+  decExt : ∀ k p a b, (∀ x, x ∈ a ↔ x ∈ b) → Z.dec k p a = Z.dec k p b
+  /-- a block of which no symbol is held is not decodable -/
+  decNil : ∀ b, b < Z.S.n → Z.dec (Z.S.K b) Z.oc.p [] = false
+  /-- every block starts before the end of the object -/
+  preLt : ∀ k, k < Z.S.n → (Z.S.pre k).length < Z.S.T.length
 
 /-- a genuine packet of the object and the `Sym` the Session model sees for it -/
 structure GenEv (Z : Setting) (p : Pkt) (s : Session.Sym) : Prop where
@@ -118,6 +124,14 @@ structure GenEv (Z : Setting) (p : Pkt) (s : Session.Sym) : Prop where
   wf : WfPkt p
   /-- a datagram is at most 65535 bytes long -/
   small : p.dataLen < 2 ^ 16
+  /-- the ESI is in the decoder's table (`Session.pushCore`'s `stored`; genuine packets only) -/
+  stored : (match Z.oc.ks[s.sbn]? with
+    | none => false
+    | some k => decide (s.esi < Session.shardsOf Z.oc.scheme k Z.oc.p) || Z.oc.scheme == .raptorq) = true
+  /-- the block length `push_to_block2` accounts is the Session configuration's `blen` -/
+  blen : ∀ pid, parsePayloadId Z.S.o p = .ok (some pid) →
+    (pid.sbl = none → Partition.blockLength Z.S.aL Z.S.aS Z.S.nL Z.S.T.length Z.S.o.e pid.sbn = .ok (Z.oc.blen.getD pid.sbn 0)) ∧
+    (∀ l, pid.sbl = some l → l * Z.S.o.e = Z.oc.blen.getD pid.sbn 0)
 
 /-- the FDT File entry of the object: OTI present, no Content-MD5 / Content-Length that could fail -/
 structure FileOK (Z : Setting) (f : FileEntry) : Prop where
@@ -153,24 +167,99 @@ theorem OpEv.wfOp {Z : Setting} {op : Op} {ev : LEv} (h : OpEv Z op ev) : WfOp o
 
 /-! ### the simulation relation -/
 
-/-- the part of the relation that talks about the Session state -/
-structure SimCore (Z : Setting) (st : St) (rx : Session.ORx) : Prop where
+/-- the ESIs a block holds -/
+def blkEsis (blk : Block) : List Nat :=
+  match blk.dec with
+  | none => []
+  | some d => decEsis d
+
+structure BlkOK (Z : Setting) (b : Nat) (blk : Block) : Prop where
+  /-- the codec's decodability is `dec`: the block is completed iff `dec` says so for the ESIs it holds -/
+  comp : blk.completed = Z.dec (Z.S.K b) Z.oc.p (blkEsis blk)
+  /-- a completed block has its source block (the genuine one, by `BOK`) -/
+  src : blk.completed = true → blk.sourceBlock.isSome = true
+  /-- a block is initialised iff it has a decoder (a written block leaves the deque: `deallocate` never runs) -/
+  ini : blk.initialized = blk.dec.isSome
+  /-- an allocated block holds at least one symbol (genuine ESIs are always stored) -/
+  ne : blk.dec.isSome = true → blkEsis blk ≠ []
+  /-- ... and is accounted with the block length of the Session configuration -/
+  size : blk.dec.isSome = true → blk.blockSize = Z.oc.blen.getD b 0
+
+structure BwOK (Z : Setting) (st : St) (w : BW) : Prop where
+  sbn : w.sbn = st.blocksOffset
+  left : w.bytesLeft + (Z.S.pre w.sbn).length = Z.S.T.length
+  pos : w.bytesLeft ≠ 0
+  cenc : w.cenc = .null
+  cl : w.cl = st.cl
+  nbw : w.nbWritten = (Z.S.pre w.sbn).length
+  disc : w.discarded = false
+  dz : w.dz = none
+
+structure SimF (Z : Setting) (st : St) : Prop where
+  blk : ∀ i b, st.blocks[i]? = some b → BlkOK Z (st.blocksOffset + i) b
+  bw : ∀ w, st.bw = some w → BwOK Z st w
+  cl : st.cl = none ∨ st.cl = some Z.S.T.length
+  /-- the deque never grows beyond the look-ahead window -/
+  len : st.blocks.length ≤ 2 * MAX_PREALLOCATED_BLOCKS + 1
+
+/-- between the block steps the head of the deque is never a completed block when the writer is open (it would have been flushed) -/
+def Head (st : St) : Prop := st.writer = some .opened → ∀ blk, st.blocks[0]? = some blk → blk.completed = false
+
+theorem SimF.of_eq {Z : Setting} {st st' : St} (h : SimF Z st) (e1 : st'.blocks = st.blocks)
+    (e2 : st'.blocksOffset = st.blocksOffset) (e3 : st'.bw = st.bw) (e4 : st'.cl = st.cl) : SimF Z st' := by
+  refine ⟨by rw [e1, e2]; exact h.blk, ?_, by rw [e4]; exact h.cl, by rw [e1]; exact h.len⟩
+  intro w hw
+  rw [e3] at hw
+  have := h.bw w hw
+  exact ⟨by rw [e2]; exact this.sbn, this.left, this.pos, this.cenc, by rw [e4]; exact this.cl, this.nbw, this.disc, this.dz⟩
+
+/-- a fresh block table (or none), no BlockWriter -/
+theorem simF_fresh (Z : Setting) (hdn : ∀ b, b < Z.S.n → Z.dec (Z.S.K b) Z.oc.p [] = false) (st : St) (k : Nat)
+    (hk : k ≤ Z.S.n) (hk2 : k ≤ 2 * MAX_PREALLOCATED_BLOCKS + 1) (hb : st.blocks = List.replicate k {}) (ho : st.blocksOffset = 0) (hbw : st.bw = none)
+    (hcl : st.cl = none ∨ st.cl = some Z.S.T.length) : SimF Z st := by
+  refine ⟨?_, (fun w hw => by rw [hbw] at hw; cases hw), hcl, by rw [hb]; simpa using hk2⟩
+  intro i b hib
+  rw [hb] at hib
+  have hm := List.mem_of_getElem? hib
+  have hi : i < k := by
+    have := (List.getElem?_eq_some_iff.mp hib).1
+    simpa using this
+  rw [List.eq_of_mem_replicate hm, ho]
+  refine ⟨?_, fun h => by simp at h, rfl, fun h => by simp at h, fun h => by simp at h⟩
+  show false = _
+  rw [show blkEsis ({} : Block) = [] from rfl, Nat.zero_add]
+  exact (hdn i (by omega)).symm
+
+/-- the BLOCK-LEVEL part of the relation (everything `push_to_block` / `write_blocks` read and write; no packet cache) -/
+structure SimB (Z : Setting) (st : St) (rx : Session.ORx) : Prop where
   oti : rx.otiKnown = st.oti.isSome
   att : rx.attached = st.fdtId.isSome
   wr : st.fdtId.isSome = true → st.writer = some .opened
   written : rx.written = st.blocksOffset
-  cache : st.cache.map (symOf Z.S.o) = rx.cache.map some
-  cacheSize : st.cacheSize = Session.cacheSum Z.oc rx.cache
-  inband : Z.oc.inbandFti = true → st.cache = []
   got : ∀ b e, (b, e) ∈ rx.got ↔ holds st b e
   nodup : rx.got.Nodup
   maxSz : st.maxSize = Z.maxSize
   /-- an attached object knows its OTI (the FDT entry carries it, `FileOK.oti`) -/
   attOti : st.fdtId.isSome = true → st.oti.isSome = true
-  /-- once the OTI of a non-empty object is known the block table exists and the packet cache has been replayed -/
-  part : st.oti.isSome = true → Z.S.n ≠ 0 → 0 < st.nbBlock ∧ st.cache = []
+  /-- once the OTI of a non-empty object is known the block table exists -/
+  tbl : st.oti.isSome = true → Z.S.n ≠ 0 → 0 < st.nbBlock
+  /-- ... and the partition fields are the object's -/
+  quad : st.oti.isSome = true → (st.aLarge, st.aSmall, st.nbALarge, st.nbBlocks) = (Z.S.aL, Z.S.aS, Z.S.nL, Z.S.n)
   /-- no Content-MD5 announced (`FileOK.md5`) -/
   md5 : st.md5 = none
+  /-- the flush invariants -/
+  f : SimF Z st
+
+/-- the relation between two ops: block level + the packet cache -/
+structure SimCore (Z : Setting) (st : St) (rx : Session.ORx) : Prop extends SimB Z st rx where
+  cache : st.cache.map (symOf Z.S.o) = rx.cache.map some
+  cacheGen : ∀ p ∈ st.cache, ∃ s, GenEv Z p s
+  cacheSize : st.cacheSize = Session.cacheSum Z.oc rx.cache
+  inband : Z.oc.inbandFti = true → st.cache = []
+  /-- once the OTI of a non-empty object is known the packet cache has been replayed -/
+  settled : st.oti.isSome = true → Z.S.n ≠ 0 → st.cache = []
+  /-- between two ops the head of the deque is not a completed block (it has been flushed) -/
+  head : Head st
 
 /-- the invariants of the ObjRecv side (all proved over genuine histories elsewhere) -/
 structure Good (Z : Setting) (st : St) : Prop where
@@ -207,6 +296,25 @@ structure Rel (Z : Setting) (st : St) (os : Session.OState) : Prop where
   errors : os.errors = cnt isError st.out
   interrupts : os.interrupts = cnt isInterrupted st.out
 
+/-- the block-level outcome relation (inside an op: during the replay of the cache the cache fields are not related) -/
+structure RelB (Z : Setting) (st : St) (os : Session.OState) : Prop where
+  live : st.state = .receiving → ∃ rx, os.obj = some rx ∧ SimB Z st rx
+  dead : st.state ≠ .receiving → os.obj = none
+  opens : os.opens = cnt isOpenOk st.out
+  completes : os.completes = cnt isComplete st.out
+  errors : os.errors = cnt isError st.out
+  interrupts : os.interrupts = cnt isInterrupted st.out
+
+/-- outcome of one block-path step from `st` to `fin`: related, the cache untouched while the object lives, cleared when it ends -/
+structure StepOut (Z : Setting) (st fin : St) (os' : Session.OState) : Prop where
+  rel : RelB Z fin os'
+  keep : fin.state = .receiving → fin.cache = st.cache ∧ fin.cacheSize = st.cacheSize
+  clear : fin.state ≠ .receiving → fin.cache = [] ∧ fin.blocks = []
+  head : fin.state = .receiving → Head fin
+
+theorem Rel.toB {Z : Setting} {st : St} {os : Session.OState} (h : Rel Z st os) : RelB Z st os :=
+  ⟨fun hs => let ⟨rx, h1, h2⟩ := h.live hs; ⟨rx, h1, h2.toSimB⟩, h.dead, h.opens, h.completes, h.errors, h.interrupts⟩
+
 /-- one event on the Session side, seen from the object (`pushNew`'s / `fdtEv`'s branch for an existing object) -/
 def objStep (Z : Setting) (os : Session.OState) : LEv → Session.OState
   | .pkt s =>
@@ -241,16 +349,18 @@ def runL (P : Params) : St → List Op → Rx St
 structure Steps (Z : Setting) : Prop where
   /-- THE BLOCK PATH.  `push_to_block2` (SBN window, look-ahead limit, allocation limit, `BlockDecoder::push`, `write_blocks`,
       completion) of a genuine packet on a live, partitioned, non-empty object  ~  `Session.pushCore`; the caller turns `Err`
-      into `error()`.  (The B flag on top of it is discharged: `block_step`.) -/
-  block2_step : ∀ (st st1 : St) (b : Bool) (os : Session.OState) (rx : Session.ORx) (p : Pkt) (s : Session.Sym),
-    Good Z st → Rel Z st os → st.state = .receiving → os.obj = some rx → SimCore Z st rx → GenEv Z p s →
+      into `error()`.  Block-level relation only: it holds during the replay of the cache too.
+      (The B flag on top of it is discharged: `block_stepB`.) -/
+  block2B_step : ∀ (st st1 : St) (b : Bool) (os : Session.OState) (rx : Session.ORx) (p : Pkt) (s : Session.Sym),
+    Good Z st → RelB Z st os → st.state = .receiving → os.obj = some rx → SimB Z st rx → Head st → GenEv Z p s →
     st.oti.isSome = true → Z.S.n ≠ 0 → pushToBlock2 Z.P st p = .ok (st1, b) →
-    Rel Z (if b then st1 else error st1 false) (Session.finish Z.oc os (Session.pushCore Z.dec Z.rc Z.oc rx s))
-  /-- `attach_fdt` with the entry of the object on a live, not yet attached object  ~  `Session.attach` + `finish` -/
-  attach_live : ∀ (st st' : St) (b : Bool) (os : Session.OState) (rx : Session.ORx) (id : Nat) (f : FileEntry),
-    Good Z st → Rel Z st os → st.state = .receiving → os.obj = some rx → rx.attached = false → FileOK Z f →
-    attachFdt Z.P st id (some f) = .ok (st', b) →
-    Rel Z st' (Session.finish Z.oc { os with opens := os.opens + 1 } (Session.attach Z.dec Z.rc Z.oc rx))
+    StepOut Z st (if b then st1 else error st1 false) (Session.finish Z.oc os (Session.pushCore Z.dec Z.rc Z.oc rx s))
+  /-- THE FLUSH AT ATTACH.  `write_blocks(0)` on the freshly attached object (writer open, cache replayed): the completed leading
+      blocks go to the writer, `complete()` when all did  ~  `Session.settle` -/
+  flush0_step : ∀ (st st1 : St) (ok : Bool) (os : Session.OState) (rx : Session.ORx),
+    Good Z st → RelB Z st os → st.state = .receiving → os.obj = some rx → SimB Z st rx → rx.attached = true → Z.S.n ≠ 0 →
+    st.cache = [] → (st.blocksOffset = 0 ∨ Head st) → writeBlocks Z.P st 0 = .ok (st1, ok) →
+    StepOut Z st (if ok then st1 else error st1 false) (Session.finish Z.oc os (Session.settle Z.dec Z.oc rx))
 
 /-! ### composition -/
 
@@ -365,10 +475,16 @@ theorem push_unknown (Z : Setting) (hZ : Z.OK) (st st' : St) (os : Session.OStat
     simp at h; subst h
     rw [hfull]; simp only [hf, decide_false, Bool.false_eq_true, if_false]
     refine ⟨fun _ => ⟨{ rx with cache := s :: rx.cache }, by simp [Session.finish], ?_⟩, fun hh => absurd hrec hh, ?_, ?_, ?_, ?_⟩
-    · refine ⟨hsim.oti, hsim.att, hsim.wr, hsim.written, ?_, ?_, fun hh => by simp [hin] at hh, ?_, hsim.nodup, hsim.maxSz, hsim.attOti, fun hh => by simp [hoti] at hh, hsim.md5⟩
+    · refine ⟨⟨hsim.oti, hsim.att, hsim.wr, hsim.written, fun b e => hsim.got b e, hsim.nodup, hsim.maxSz, hsim.attOti,
+          fun hh => by simp [hoti] at hh, fun hh => by simp [hoti] at hh, hsim.md5, hsim.f.of_eq rfl rfl rfl rfl⟩, ?_, ?_, ?_,
+          fun hh => by simp [hin] at hh, fun hh => by simp [hoti] at hh, fun hh => by simp [hwn] at hh⟩
       · simp [g.sym, hsim.cache]
+      · intro q hq
+        simp only [List.mem_cons] at hq
+        rcases hq with rfl | hq
+        · exact ⟨s, g⟩
+        · exact hsim.cacheGen q hq
       · simp [Session.cacheSum, hsim.cacheSize, g.len, Nat.add_comm]
-      · intro b e; exact hsim.got b e
     all_goals simp [Session.finish, hr.opens, hr.completes, hr.errors, hr.interrupts]
 
 theorem finish_obj_some {o : Session.ObjCfg} {os : Session.OState} {r : Session.PushRes} {x : Session.ORx}
@@ -383,12 +499,12 @@ theorem finish_obj_none {o : Session.ObjCfg} {os : Session.OState} {r : Session.
   cases ht : r.term <;> simp [ht] at h <;> simp
 
 /-- THE B FLAG - DISCHARGED: `push_to_block` = `push_to_block2`, then close-object on a still incomplete object means `interrupted`
-    (writer told so iff it exists)  ~  `Session.pushSym` = `pushCore`, then the same rule -/
-theorem block_step (Z : Setting) (H : Steps Z) (st st1 : St) (b : Bool) (os : Session.OState) (rx : Session.ORx) (p : Pkt)
-    (s : Session.Sym) (hg : Good Z st) (hr : Rel Z st os) (hrec : st.state = .receiving) (hobj : os.obj = some rx)
-    (hsim : SimCore Z st rx) (g : GenEv Z p s) (hoti : st.oti.isSome = true) (hn : Z.S.n ≠ 0)
+    (writer told so iff it exists)  ~  `Session.pushSym` = `pushCore`, then the same rule.  Block-level relation. -/
+theorem block_stepB (Z : Setting) (H : Steps Z) (st st1 : St) (b : Bool) (os : Session.OState) (rx : Session.ORx) (p : Pkt)
+    (s : Session.Sym) (hg : Good Z st) (hr : RelB Z st os) (hrec : st.state = .receiving) (hobj : os.obj = some rx)
+    (hsim : SimB Z st rx) (hhd : Head st) (g : GenEv Z p s) (hoti : st.oti.isSome = true) (hn : Z.S.n ≠ 0)
     (h : pushToBlock Z.P st p = .ok (st1, b)) :
-    Rel Z (if b then st1 else error st1 false) (Session.finish Z.oc os (Session.pushSym Z.dec Z.rc Z.oc rx s)) := by
+    StepOut Z st (if b then st1 else error st1 false) (Session.finish Z.oc os (Session.pushSym Z.dec Z.rc Z.oc rx s)) := by
   obtain ⟨pid, _, hs⟩ := symOf_some g.sym
   have hcl : s.close = p.close := by rw [hs]
   unfold pushToBlock at h
@@ -397,19 +513,19 @@ theorem block_step (Z : Setting) (H : Steps Z) (st st1 : St) (b : Bool) (os : Se
   · -- Err
     rename_i s2 heq
     cases h
-    have h2 := H.block2_step st _ false os rx p s hg hr hrec hobj hsim g hoti hn heq
+    have h2 := H.block2B_step st _ false os rx p s hg hr hrec hobj hsim hhd g hoti hn heq
     have hdead : (Session.finish Z.oc os (Session.pushCore Z.dec Z.rc Z.oc rx s)).obj = none :=
-      h2.dead (by simp)
+      h2.rel.dead (by simp)
     have hterm := finish_obj_none hdead
     have : Session.pushSym Z.dec Z.rc Z.oc rx s = Session.pushCore Z.dec Z.rc Z.oc rx s := by
       unfold Session.pushSym
       cases ht : (Session.pushCore Z.dec Z.rc Z.oc rx s).term <;> simp_all
     rw [this]; exact h2
   · rename_i s2 heq
-    have h2 := H.block2_step st _ true os rx p s hg hr hrec hobj hsim g hoti hn heq
+    have h2 := H.block2B_step st _ true os rx p s hg hr hrec hobj hsim hhd g hoti hn heq
     simp only [if_true] at h2
     by_cases hst : s2.state = .receiving
-    · obtain ⟨rx2, hobj2, hsim2⟩ := h2.live hst
+    · obtain ⟨rx2, hobj2, hsim2⟩ := h2.rel.live hst
       obtain ⟨hterm, hrx2⟩ := finish_obj_some hobj2
       by_cases hc : p.close = true
       · -- B flag on a still incomplete object
@@ -422,8 +538,10 @@ theorem block_step (Z : Setting) (H : Steps Z) (st st1 : St) (b : Bool) (os : Se
         rw [hS]
         have hfin : Session.finish Z.oc os (Session.pushCore Z.dec Z.rc Z.oc rx s) = { os with obj := some rx2 } := by
           unfold Session.finish; simp [hterm, hrx2]
-        rw [hfin] at h2
+        have h2r := h2.rel
+        rw [hfin] at h2r
         subst hrx2
+        refine ⟨?_, fun hh => by simp at hh, fun _ => by simp, fun hh => by simp at hh⟩
         cases hw : s2.writer with
         | none =>
           have hfd : s2.fdtId = none := by
@@ -433,10 +551,10 @@ theorem block_step (Z : Setting) (H : Steps Z) (st st1 : St) (b : Bool) (os : Se
           have hatt : (Session.pushCore Z.dec Z.rc Z.oc rx s).rx.attached = false := by rw [hsim2.att, hfd]; rfl
           have hout : (error s2 true).out = s2.out := by simp [hw]
           refine ⟨fun hh => by simp at hh, fun _ => by simp [Session.finish], ?_, ?_, ?_, ?_⟩
-          · rw [hout]; simpa [Session.finish] using h2.opens
-          · rw [hout]; simpa [Session.finish] using h2.completes
-          · rw [hout]; simpa [Session.finish] using h2.errors
-          · rw [hout]; simpa [Session.finish, hatt] using h2.interrupts
+          · rw [hout]; simpa [Session.finish] using h2r.opens
+          · rw [hout]; simpa [Session.finish] using h2r.completes
+          · rw [hout]; simpa [Session.finish] using h2r.errors
+          · rw [hout]; simpa [Session.finish, hatt] using h2r.interrupts
         | some w =>
           have hfd : s2.fdtId.isSome = true := by
             cases hf : s2.fdtId with
@@ -445,11 +563,11 @@ theorem block_step (Z : Setting) (H : Steps Z) (st st1 : St) (b : Bool) (os : Se
           have hatt : (Session.pushCore Z.dec Z.rc Z.oc rx s).rx.attached = true := by rw [hsim2.att]; exact hfd
           have hout : (error s2 true).out = WCall.interrupted :: s2.out := by simp [hw]
           refine ⟨fun hh => by simp at hh, fun _ => by simp [Session.finish], ?_, ?_, ?_, ?_⟩
-          · rw [hout, cnt_cons]; simpa [Session.finish, isOpenOk] using h2.opens
-          · rw [hout, cnt_cons]; simpa [Session.finish, isComplete] using h2.completes
-          · rw [hout, cnt_cons]; simpa [Session.finish, isError] using h2.errors
+          · rw [hout, cnt_cons]; simpa [Session.finish, isOpenOk] using h2r.opens
+          · rw [hout, cnt_cons]; simpa [Session.finish, isComplete] using h2r.completes
+          · rw [hout, cnt_cons]; simpa [Session.finish, isError] using h2r.errors
           · rw [hout, cnt_cons]
-            have := h2.interrupts
+            have := h2r.interrupts
             simp only [Session.finish, hatt, if_true, isInterrupted] at this ⊢
             omega
       · rw [if_neg (fun hh => hc hh.1)] at h
@@ -461,12 +579,102 @@ theorem block_step (Z : Setting) (H : Steps Z) (st st1 : St) (b : Bool) (os : Se
     · rw [if_neg (fun hh => hst hh.2)] at h
       cases h
       simp only [if_true]
-      have hdead := h2.dead hst
+      have hdead := h2.rel.dead hst
       have hterm := finish_obj_none hdead
       have : Session.pushSym Z.dec Z.rc Z.oc rx s = Session.pushCore Z.dec Z.rc Z.oc rx s := by
         unfold Session.pushSym
         cases ht : (Session.pushCore Z.dec Z.rc Z.oc rx s).term <;> simp_all
       rw [this]; exact h2
+
+/-- neither `pushCore` nor `settle` touches the packet cache -/
+theorem settle_cache (dec : (k p : Nat) → List Nat → Bool) (o : Session.ObjCfg) (rx : Session.ORx) :
+    (Session.settle dec o rx).rx.cache = rx.cache := by
+  unfold Session.settle; split <;> rfl
+
+theorem pushCore_cache (dec : (k p : Nat) → List Nat → Bool) (rc : Session.RxCfg) (o : Session.ObjCfg) (rx : Session.ORx)
+    (s : Session.Sym) : (Session.pushCore dec rc o rx s).rx.cache = rx.cache := by
+  unfold Session.pushCore
+  split
+  · rfl
+  · split
+    · rfl
+    · split
+      · rfl
+      · split
+        · rfl
+        · dsimp only
+          split
+          · rfl
+          · rw [settle_cache]
+
+theorem pushSym_cache (dec : (k p : Nat) → List Nat → Bool) (rc : Session.RxCfg) (o : Session.ObjCfg) (rx : Session.ORx)
+    (s : Session.Sym) : (Session.pushSym dec rc o rx s).rx.cache = rx.cache := by
+  unfold Session.pushSym
+  dsimp only
+  split
+  · exact pushCore_cache dec rc o rx s
+  · exact pushCore_cache dec rc o rx s
+
+theorem settle_attached (dec : (k p : Nat) → List Nat → Bool) (o : Session.ObjCfg) (rx : Session.ORx) :
+    (Session.settle dec o rx).rx.attached = rx.attached := by
+  unfold Session.settle; split <;> rfl
+
+theorem pushCore_attached (dec : (k p : Nat) → List Nat → Bool) (rc : Session.RxCfg) (o : Session.ObjCfg) (rx : Session.ORx)
+    (s : Session.Sym) : (Session.pushCore dec rc o rx s).rx.attached = rx.attached := by
+  unfold Session.pushCore
+  split
+  · rfl
+  · split
+    · rfl
+    · split
+      · rfl
+      · split
+        · rfl
+        · dsimp only
+          split
+          · rfl
+          · rw [settle_attached]
+
+theorem pushSym_attached (dec : (k p : Nat) → List Nat → Bool) (rc : Session.RxCfg) (o : Session.ObjCfg) (rx : Session.ORx)
+    (s : Session.Sym) : (Session.pushSym dec rc o rx s).rx.attached = rx.attached := by
+  unfold Session.pushSym
+  dsimp only
+  split
+  · exact pushCore_attached dec rc o rx s
+  · exact pushCore_attached dec rc o rx s
+
+theorem replay_attached (dec : (k p : Nat) → List Nat → Bool) (rc : Session.RxCfg) (o : Session.ObjCfg) :
+    ∀ (l : List Session.Sym) (rx : Session.ORx), (Session.replay dec rc o l rx).rx.attached = rx.attached := by
+  intro l
+  induction l with
+  | nil => intro rx; rfl
+  | cons s rest ih =>
+    intro rx
+    simp only [Session.replay]
+    split
+    · rw [ih, pushSym_attached]
+    · rw [pushSym_attached]
+
+theorem finish_obj_irrel' (o : Session.ObjCfg) (os : Session.OState) (n : Nat) (x : Option Session.ORx) (r : Session.PushRes) :
+    Session.finish o { os with opens := n, obj := x } r = Session.finish o { os with opens := n } r := by
+  unfold Session.finish; cases r.term <;> rfl
+
+/-- the block path between two ops (cache replayed, i.e. empty): the full relation -/
+theorem block_step (Z : Setting) (H : Steps Z) (st st1 : St) (b : Bool) (os : Session.OState) (rx : Session.ORx) (p : Pkt)
+    (s : Session.Sym) (hg : Good Z st) (hr : Rel Z st os) (hrec : st.state = .receiving) (hobj : os.obj = some rx)
+    (hsim : SimCore Z st rx) (g : GenEv Z p s) (hoti : st.oti.isSome = true) (hn : Z.S.n ≠ 0)
+    (h : pushToBlock Z.P st p = .ok (st1, b)) :
+    Rel Z (if b then st1 else error st1 false) (Session.finish Z.oc os (Session.pushSym Z.dec Z.rc Z.oc rx s)) := by
+  have hc : st.cache = [] := hsim.settled hoti hn
+  have hrc : rx.cache = [] := by have := hsim.cache; rw [hc] at this; simpa using this.symm
+  have h2 := block_stepB Z H st st1 b os rx p s hg hr.toB hrec hobj hsim.toSimB hsim.head g hoti hn h
+  refine ⟨fun hs => ?_, h2.rel.dead, h2.rel.opens, h2.rel.completes, h2.rel.errors, h2.rel.interrupts⟩
+  obtain ⟨rx2, hobj2, hsim2⟩ := h2.rel.live hs
+  obtain ⟨_, hrx2⟩ := finish_obj_some hobj2
+  obtain ⟨k1, k2⟩ := h2.keep hs
+  have hrc2 : rx2.cache = [] := by rw [hrx2, pushSym_cache, hrc]
+  refine ⟨rx2, hobj2, hsim2, by rw [k1, hc, hrc2]; rfl, (fun q hq => by rw [k1, hc] at hq; cases hq),
+    by rw [k2, hsim.cacheSize, hrc, hrc2], fun _ => by rw [k1, hc], fun _ _ => by rw [k1, hc], h2.head hs⟩
 
 theorem setOti_some (st : St) (p : Pkt) (h : st.oti.isSome = true) : setOtiFromPkt st p = st := by
   unfold setOtiFromPkt; rw [if_pos h]
@@ -476,7 +684,8 @@ theorem push_known_nonempty (Z : Setting) (H : Steps Z) (st st' : St) (os : Sess
     (s : Session.Sym) (hg : Good Z st) (hr : Rel Z st os) (hrec : st.state = .receiving) (hobj : os.obj = some rx)
     (hsim : SimCore Z st rx) (g : GenEv Z p s) (hoti : st.oti.isSome = true) (hn : Z.S.n ≠ 0) (h : push Z.P st p = .ok st') :
     Rel Z st' (Session.pushObj Z.dec Z.rc Z.oc os rx s) := by
-  obtain ⟨hnb, hc⟩ := hsim.part hoti hn
+  have hnb := hsim.tbl hoti hn
+  have hc := hsim.settled hoti hn
   have hknown : rx.otiKnown = true := by rw [hsim.oti]; exact hoti
   have hrc : rx.cache = [] := by
     have := hsim.cache; rw [hc] at this; simpa using this.symm
@@ -596,10 +805,14 @@ theorem push_first_inband (Z : Setting) (hZ : Z.OK) (H : Steps Z) (st st' : St) 
     simp [Session.pushObj, hin, hknown]
   rw [hS, ← finish_obj_irrel Z.oc os (some { rx with otiKnown := true })]
   have hsim1 : SimCore Z s1 { rx with otiKnown := true } := by
-    refine ⟨by rw [hot1], by rw [hs1]; exact hsim.att, fun hh => by rw [hs1] at hh; simp [hfd] at hh,
-      by rw [hs1]; exact hsim.written, by rw [hs1]; simp [hc, hrc], by rw [hs1]; simp [hcs, hrc, Session.cacheSum],
-      fun _ => by rw [hs1]; exact hc, ?_, by simp [hgot], by rw [hs1]; exact hsim.maxSz,
-      fun hh => by rw [hs1] at hh; simp [hfd] at hh, fun _ _ => ⟨hnb1, by rw [hs1]; exact hc⟩, by rw [hs1]; exact hsim.md5⟩
+    refine ⟨⟨by rw [hot1], by rw [hs1]; exact hsim.att, fun hh => by rw [hs1] at hh; simp [hfd] at hh,
+      by rw [hs1]; exact hsim.written, ?_, by simp [hgot], by rw [hs1]; exact hsim.maxSz,
+      fun hh => by rw [hs1] at hh; simp [hfd] at hh, fun _ _ => hnb1, fun _ => by rw [hs1], by rw [hs1]; exact hsim.md5,
+      simF_fresh Z hZ.decNil s1 (min Z.S.n MAX_PREALLOCATED_BLOCKS) (Nat.min_le_left _ _)
+        (by have := Nat.min_le_right Z.S.n MAX_PREALLOCATED_BLOCKS; omega) (by rw [hs1]) (by rw [hs1]; exact ho0)
+        (by rw [hs1]; exact hg.tinv.wbw hwn) (by rw [hs1]; exact hsim.f.cl)⟩,
+      by rw [hs1]; simp [hc, hrc], fun q hq => by rw [hs1] at hq; simp [hc] at hq, by rw [hs1]; simp [hcs, hrc, Session.cacheSum],
+      fun _ => by rw [hs1]; exact hc, fun _ _ => by rw [hs1]; exact hc, fun hh => by rw [hs1] at hh; simp [hwn] at hh⟩
     intro b e
     simp only [hgot, List.not_mem_nil, false_iff]
     rintro ⟨_, blk, d, hb, hd, _⟩
@@ -631,7 +844,8 @@ theorem empty_tail (Z : Setting) (hZ : Z.OK) (st s1 st' : St) (os : Session.OSta
     (f_state : s1.state = .receiving) (f_oti : s1.oti = some Z.S.o) (f_tl : s1.tl = some 0) (f_cache : s1.cache = st.cache)
     (f_cs : s1.cacheSize = st.cacheSize) (f_max : s1.maxSize = st.maxSize) (f_blocks : s1.blocks = []) (f_off : s1.blocksOffset = 0)
     (f_wr : s1.writer = st.writer) (f_bw : s1.bw = none) (f_fdt : s1.fdtId = st.fdtId) (f_out : s1.out = st.out)
-    (f_md5 : s1.md5 = st.md5) (hb0 : st.blocks = []) (ho0 : st.blocksOffset = 0)
+    (f_md5 : s1.md5 = st.md5) (f_cl : s1.cl = st.cl)
+    (f_quad : (s1.aLarge, s1.aSmall, s1.nbALarge, s1.nbBlocks) = (Z.S.aL, Z.S.aS, Z.S.nL, Z.S.n)) (hb0 : st.blocks = []) (ho0 : st.blocksOffset = 0)
     (hrx1 : rx1 = { rx with otiKnown := true })
     (h : (match pushToBlock Z.P s1 p with
           | .error f => .error f
@@ -706,10 +920,13 @@ theorem empty_tail (Z : Setting) (hZ : Z.OK) (st s1 st' : St) (os : Session.OSta
       simp only [hc, Bool.false_eq_true, if_false]
       refine ⟨fun _ => ⟨rx1, by simp [Session.finish], ?_⟩, fun hh => absurd f_state hh, ?_, ?_, ?_, ?_⟩
       · rw [hrx1]
-        refine ⟨by simp [f_oti], by rw [f_fdt]; exact hsim.att, fun hh => by rw [f_fdt] at hh; rw [f_wr]; exact hsim.wr hh,
-          by rw [f_off, ← ho0]; exact hsim.written, by rw [f_cache]; exact hsim.cache, by rw [f_cs]; exact hsim.cacheSize,
-          fun hh => by rw [f_cache]; exact hsim.inband hh, ?_, hsim.nodup, by rw [f_max]; exact hsim.maxSz,
-          fun hh => by simp [f_oti], fun _ hh => absurd hn hh, by rw [f_md5]; exact hsim.md5⟩
+        refine ⟨⟨by simp [f_oti], by rw [f_fdt]; exact hsim.att, fun hh => by rw [f_fdt] at hh; rw [f_wr]; exact hsim.wr hh,
+          by rw [f_off, ← ho0]; exact hsim.written, ?_, hsim.nodup, by rw [f_max]; exact hsim.maxSz,
+          fun hh => by simp [f_oti], fun _ hh => absurd hn hh, fun _ => f_quad, by rw [f_md5]; exact hsim.md5,
+          ⟨fun i b hib => by rw [f_blocks] at hib; simp at hib, (fun w' hw' => by rw [f_bw] at hw'; cases hw'), by rw [f_cl]; exact hsim.f.cl, by rw [f_blocks]; simp⟩⟩,
+          by rw [f_cache]; exact hsim.cache, fun q hq => hsim.cacheGen q (by rw [← f_cache]; exact hq),
+          by rw [f_cs]; exact hsim.cacheSize, fun hh => by rw [f_cache]; exact hsim.inband hh, fun _ hh => absurd hn hh,
+          fun _ blk hb => by rw [f_blocks] at hb; simp at hb⟩
         intro b e
         rw [hsim.got b e]
         unfold holds
@@ -777,7 +994,7 @@ theorem push_empty (Z : Setting) (hZ : Z.OK) (st st' : St) (os : Session.OState)
     have hrx : rx = { rx with otiKnown := true } := by cases rx; simp_all
     exact empty_tail Z hZ st s1 st' os rx rx p s hg hr hsim g hn (by rw [hs1]; exact hrec) (by rw [hs1]; exact ho)
       (by rw [hs1]; exact htl) (by rw [hs1]) (by rw [hs1]) (by rw [hs1]) (by rw [hs1]; simp [hn]) (by rw [hs1]; exact ho0)
-      (by rw [hs1]) (by rw [hs1]; exact hbw) (by rw [hs1]) (by rw [hs1]) (by rw [hs1]) hb0 ho0 hrx h
+      (by rw [hs1]) (by rw [hs1]; exact hbw) (by rw [hs1]) (by rw [hs1]) (by rw [hs1]) (by rw [hs1]) (by rw [hs1]) hb0 ho0 hrx h
   | none =>
     cases hk with
     | inl hk => simp [ho] at hk
@@ -817,7 +1034,568 @@ theorem push_empty (Z : Setting) (hZ : Z.OK) (st st' : St) (os : Session.OState)
       rw [hS]
       exact empty_tail Z hZ st s1 st' os rx _ p s hg hr hsim g hn (by rw [hs1]; exact hrec) (by rw [hs1]) (by rw [hs1])
         (by rw [hs1]) (by rw [hs1]) (by rw [hs1]) (by rw [hs1]; simp [hn]) (by rw [hs1]; exact ho0)
-        (by rw [hs1]) (by rw [hs1]; exact hbw) (by rw [hs1]) (by rw [hs1]) (by rw [hs1]) hb0 ho0 rfl h
+        (by rw [hs1]) (by rw [hs1]; exact hbw) (by rw [hs1]) (by rw [hs1]) (by rw [hs1]) (by rw [hs1]) (by rw [hs1]) hb0 ho0 rfl h
+
+/-! ### `attach_fdt`: metadata, block table, writer - then the tail (replay, flush) -/
+
+/-- what `attach_fdt` does once the writer is open: replay of the cache, `write_blocks(0)`, replay again -/
+def attachTail (P : Params) (s2 : St) : Rx (St × Bool) :=
+  match pushFromCache P s2 with
+  | .error e => .error e
+  | .ok st =>
+  match writeBlocks P st 0 with
+  | .error e => .error e
+  | .ok (st, ok) =>
+  match pushFromCache P (if ok then st else error st false) with
+  | .error e => .error e
+  | .ok st => .ok (st, true)
+
+/-- the state after `init_object_writer` created and opened the writer (StoreObject, open Ok) -/
+def openedSt (s1 : St) (T : Nat) : St :=
+  { s1 with wIdx := s1.nBuilder, nBuilder := s1.nBuilder + 1, out := .open true :: .new s1.meta .store :: s1.out, md5Check := s1.md5Check, writer := some .opened, bw := if T ≠ 0 then some (BW.new T s1.cl .null s1.md5Check) else none }
+
+/-- `init_object_writer` with an all-accepting writer side: the writer is created and opened -/
+theorem writer_open (Z : Setting) (hZ : Z.OK) (s1 : St) (id T : Nat) (o : Oti) (hw : s1.writer = none) (hbw : s1.bw = none)
+    (hf : s1.fdtId = some id) (hc : s1.cenc = some .null) (htl : s1.tl = some T) (ho : s1.oti = some o) (hm : s1.md5 = none) :
+    initObjectWriter Z.P s1 = .ok (openedSt s1 T) := by
+  obtain ⟨e1, e2, _⟩ := hZ.env s1.nBuilder
+  unfold initObjectWriter openedSt
+  simp only [hw, Option.isSome_none, Bool.false_eq_true, if_false, hf, hc, htl, ho]
+  simp only [e1]
+  unfold openWriter
+  simp [hbw, e2, hm]
+
+/-- the File entry of the object never contradicts what a genuine history taught in band -/
+theorem no_conflict (Z : Setting) (hZ : Z.OK) (st : St) (rx : Session.ORx) (f : FileEntry) (hg : Good Z st)
+    (hsim : SimB Z st rx) (fo : FileOK Z f) (hw : st.writer = none) : fdtConflict st f = .ok false := by
+  unfold fdtConflict
+  rw [if_neg (by simp [hw])]
+  cases ho : st.oti with
+  | none => rfl
+  | some o =>
+    have hoS : o = Z.S.o := by
+      cases hg.ginv.oti with
+      | inl h1 => rw [ho] at h1; cases h1
+      | inr h1 => rw [ho] at h1; cases h1; rfl
+    subst hoS
+    have htl : st.tl = some Z.S.T.length := by
+      have h1 := hg.tinv.otitl (by simp [ho])
+      cases hg.ginv.tl with
+      | inl h2 => simp [h2] at h1
+      | inr h2 => exact h2
+    have hq := hsim.quad (by simp [ho])
+    simp only [fo.oti]
+    rw [if_neg (by simp [htl, fo.gen.2.1])]
+    rw [fo.gen.2.1, hZ.laws.quad]
+    simp only [liftRs]
+    simp [hq]
+
+theorem attach_prefix (Z : Setting) (hZ : Z.OK) (st : St) (id : Nat) (f : FileEntry) (rx : Session.ORx) (hg : Good Z st)
+    (hrec : st.state = .receiving) (hsim : SimCore Z st rx) (hatt : rx.attached = false) (fo : FileOK Z f) :
+    ∃ s2 : St, attachFdt Z.P st id (some f) = attachTail Z.P s2 ∧ Good Z s2 ∧ s2.state = .receiving ∧
+      SimB Z s2 { rx with attached := true, otiKnown := true } ∧ s2.cache = st.cache ∧ s2.cacheSize = st.cacheSize ∧
+      (∃ m, s2.out = .open true :: .new m .store :: st.out) ∧ s2.writer = some .opened ∧ s2.oti.isSome = true ∧
+      (Z.S.n = 0 → s2.blocks = [] ∧ s2.blocksOffset = 0 ∧ s2.bw = none) ∧ s2.blocksOffset = 0 ∧
+      (st.cache ≠ [] → Z.S.n ≠ 0 → Head s2) := by
+  have hfd : st.fdtId = none := by
+    cases hf : st.fdtId with
+    | none => rfl
+    | some i => have := hsim.att; rw [hatt, hf] at this; cases this
+  have hwn : st.writer = none := by
+    cases hw : st.writer with
+    | none => rfl
+    | some w => exact absurd hfd (hg.inv.fdt (by simp [hw]))
+  have hbw : st.bw = none := hg.tinv.wbw hwn
+  have hftl : f.tl = Z.S.T.length := fo.gen.2.1
+  have hfc : f.cenc = .null := fo.gen.2.2
+  have hcenc : (if st.cenc.isNone then some f.cenc else st.cenc) = some Cenc.null := by
+    cases hg.ginv.cenc with
+    | inl h => simp [h, hfc]
+    | inr h => simp [h]
+  -- the state after the metadata
+  obtain ⟨s0, e0, hT0⟩ := tinv_attachMeta hg.tinv hfd id f fo.wf
+  have hi0 := inv_attachMeta _ _ _ hg.inv e0
+  have hj0 := jinv_attachMeta _ _ _ hwn hg.jinv e0
+  have hg0 := ginv_attachMeta _ _ _ hwn hg.ginv fo.gen e0
+  have hs0 : s0 = { st with cenc := some .null, oti := some Z.S.o, tl := some Z.S.T.length, md5 := none, fdtId := some id,
+                            cl := f.cl, noCache := some f.noCache } := by
+    unfold attachMeta at e0
+    dsimp only at e0
+    rw [hcenc] at e0
+    cases ho : st.oti with
+    | none =>
+      have htl : st.tl = none := by
+        cases ht : st.tl with
+        | none => rfl
+        | some l => have := hg.tinv.tlFdt ho (by simp [ht]); simp [hfd] at this
+      simp [ho, htl, fo.oti, fo.md5, hftl] at e0
+      exact e0.symm
+    | some o =>
+      have hoS : o = Z.S.o := by
+        cases hg.ginv.oti with
+        | inl h1 => rw [ho] at h1; cases h1
+        | inr h1 => rw [ho] at h1; cases h1; rfl
+      have htl : st.tl = some Z.S.T.length := by
+        have h1 := hg.tinv.otitl (by simp [ho])
+        cases hg.ginv.tl with
+        | inl h2 => simp [h2] at h1
+        | inr h2 => exact h2
+      simp [ho, htl, fo.md5, hoS] at e0
+      exact e0.symm
+  -- the block table
+  obtain ⟨s1, e1, hT1⟩ := tinv_initBP hT0
+  have hi1 := (inv_initBlocksPartitioning _ hi0 e1).1
+  have hj1 := hj0.1.sameJ (sameJ_initBlocksPartitioning _ e1)
+  have hg1 := ginv_initBlocksPartitioning _ hZ.laws _ hg0 e1
+  have hs1 : ∃ B : List Block, s1 = { s0 with aLarge := Z.S.aL, aSmall := Z.S.aS, nbALarge := Z.S.nL, nbBlocks := Z.S.n, blocks := B } ∧
+      ((st.oti.isSome = true ∧ Z.S.n ≠ 0 ∧ B = st.blocks) ∨
+       ((st.oti = none ∨ Z.S.n = 0) ∧ st.blocks = [] ∧ st.blocksOffset = 0 ∧ B = List.replicate (min Z.S.n MAX_PREALLOCATED_BLOCKS) {})) := by
+    by_cases hk : st.oti.isSome = true ∧ Z.S.n ≠ 0
+    · have hnb := hsim.tbl hk.1 hk.2
+      have hq := hsim.quad hk.1
+      have : initBlocksPartitioning s0 = .ok s0 := by
+        unfold initBlocksPartitioning
+        have : 0 < s0.nbBlock := by rw [hs0]; exact hnb
+        rw [if_pos this]
+      rw [this] at e1
+      cases e1
+      refine ⟨st.blocks, ?_, .inl ⟨hk.1, hk.2, rfl⟩⟩
+      simp only [Prod.mk.injEq] at hq
+      rw [hs0]
+      cases st
+      simp_all
+    · have hb : st.blocks = [] ∧ st.blocksOffset = 0 := by
+        by_cases ho : st.oti = none
+        · exact ⟨(hg.tinv.noOti ho).1, (hg.tinv.noOti ho).2.1⟩
+        · have hn : Z.S.n = 0 := by
+            apply Classical.byContradiction
+            intro hn
+            exact hk ⟨by cases hx : st.oti <;> simp_all, hn⟩
+          have := hg.ginv.room
+          exact ⟨List.eq_nil_of_length_eq_zero (by omega), by omega⟩
+      refine ⟨_, ?_, .inr ⟨?_, hb.1, hb.2, rfl⟩⟩
+      · rw [hs0] at e1
+        unfold initBlocksPartitioning at e1
+        simp [St.nbBlock, hb.1, hb.2, hZ.laws.quad, liftRs] at e1
+        rw [hs0, ← e1]
+        simp [hb.2]
+      · by_cases ho : st.oti = none
+        · exact .inl ho
+        · right
+          apply Classical.byContradiction
+          intro hn
+          exact hk ⟨by cases hx : st.oti <;> simp_all, hn⟩
+  obtain ⟨B, hs1, hB⟩ := hs1
+  -- the writer
+  have ew := writer_open Z hZ s1 id Z.S.T.length Z.S.o (by rw [hs1, hs0]; exact hwn) (by rw [hs1, hs0]; exact hbw)
+    (by rw [hs1, hs0]) (by rw [hs1, hs0]) (by rw [hs1, hs0]) (by rw [hs1, hs0]) (by rw [hs1, hs0])
+  obtain ⟨s2, hs2⟩ : ∃ s2 : St, s2 = openedSt s1 Z.S.T.length := ⟨_, rfl⟩
+  rw [← hs2] at ew
+  have hi2 := inv_initObjectWriter _ _ hi1 ew
+  have hj2 := jinv_initObjectWriter _ _ hj1 ew
+  have hg2 := ginv_initObjectWriter _ _ hZ.laws _ hj1 hg1 ew
+  have hT2 : TInv s2 := by
+    obtain ⟨x, ex, hx⟩ := tinv_initObjectWriter Z.P hT1
+    rw [ew] at ex; cases ex; exact hx
+  unfold openedSt at hs2
+  refine ⟨s2, ?_, ⟨hi2, hj2, hg2, hT2⟩, by rw [hs2, hs1, hs0]; exact hrec, ?_, by rw [hs2, hs1, hs0], by rw [hs2, hs1, hs0],
+    ⟨_, by rw [hs2]; rw [hs1, hs0]⟩, by rw [hs2], by rw [hs2, hs1, hs0]; rfl, ?_, by rw [hs2, hs1, hs0]; exact hg.inv.bwOff hbw, ?_⟩
+  · -- the run
+    unfold attachFdt
+    rw [if_neg (by simp [hfd])]
+    dsimp only
+    rw [no_conflict Z hZ st rx f hg hsim.toSimB fo hwn]
+    dsimp only
+    unfold attachCore attachTail
+    simp only [Bool.false_eq_true, if_false]
+    rw [e0]; dsimp only
+    rw [e1]; dsimp only
+    rw [ew]
+    rfl
+  · -- the block-level relation
+    have hblocks : s2.blocks = B := by rw [hs2, hs1]
+    have hoff : s2.blocksOffset = st.blocksOffset := by rw [hs2, hs1, hs0]
+    refine ⟨by rw [hs2, hs1, hs0]; rfl, by rw [hs2, hs1, hs0]; rfl, fun _ => by rw [hs2], by rw [hoff]; exact hsim.written,
+      ?_, hsim.nodup, by rw [hs2, hs1, hs0]; exact hsim.maxSz, fun _ => by rw [hs2, hs1, hs0]; rfl, ?_, fun _ => by rw [hs2, hs1],
+      by rw [hs2, hs1, hs0], ?_⟩
+    · intro b e
+      rw [hsim.got b e]
+      unfold holds
+      rw [hblocks, hoff]
+      rcases hB with ⟨_, _, hBe⟩ | ⟨_, hb0, _, hBe⟩
+      · rw [hBe]
+      · rw [hBe, hb0]
+        constructor
+        · rintro ⟨_, blk, d, hb, _⟩; simp at hb
+        · rintro ⟨_, blk, d, hb, hd, _⟩
+          have := List.mem_of_getElem? hb
+          rw [List.eq_of_mem_replicate this] at hd
+          cases hd
+    · intro _ hn
+      unfold St.nbBlock
+      rw [hblocks, hoff]
+      rcases hB with ⟨ho, hn', hBe⟩ | ⟨_, _, ho0, hBe⟩
+      · rw [hBe]; exact hsim.tbl ho hn'
+      · rw [hBe]; simp [MAX_PREALLOCATED_BLOCKS]; omega
+    · -- the flush invariants
+      have ho0 : st.blocksOffset = 0 := hg.inv.bwOff hbw
+      have hcl2 : s2.cl = f.cl := by rw [hs2, hs1, hs0]
+      refine ⟨?_, ?_, by rw [hcl2]; exact fo.cl, ?_⟩
+      rotate_right
+      · rw [hblocks]
+        rcases hB with ⟨_, _, hBe⟩ | ⟨_, _, _, hBe⟩
+        · rw [hBe]; exact hsim.f.len
+        · rw [hBe]; have := Nat.min_le_right Z.S.n MAX_PREALLOCATED_BLOCKS; simp; omega
+      · intro i b hib
+        rw [hoff]
+        rcases hB with ⟨_, _, hBe⟩ | ⟨_, _, _, hBe⟩
+        · rw [hblocks, hBe] at hib; exact hsim.f.blk i b hib
+        · have := (simF_fresh Z hZ.decNil { s2 with bw := none } (min Z.S.n MAX_PREALLOCATED_BLOCKS) (Nat.min_le_left _ _)
+            (by have := Nat.min_le_right Z.S.n MAX_PREALLOCATED_BLOCKS; omega)
+            (by show s2.blocks = _; rw [hblocks, hBe]) (by show s2.blocksOffset = 0; rw [hoff, ho0]) rfl
+            (by show s2.cl = none ∨ _; rw [hcl2]; exact fo.cl)).blk i b hib
+          simpa [hoff] using this
+      · intro w' hw'
+        have hbw2 : s2.bw = if Z.S.T.length ≠ 0 then some (BW.new Z.S.T.length s1.cl .null s1.md5Check) else none := by rw [hs2]
+        rw [hbw2] at hw'
+        by_cases hT : Z.S.T.length = 0
+        · simp [hT] at hw'
+        · simp only [ne_eq, hT, not_false_eq_true, if_true] at hw'
+          cases hw'
+          have hcl1 : s1.cl = s2.cl := by rw [hs2]
+          exact ⟨by rw [hoff, ho0]; rfl, by simp [BW.new, hZ.laws.pre0], by simpa [BW.new] using hT, rfl, by rw [← hcl1]; rfl,
+            by simp [BW.new, hZ.laws.pre0], rfl, rfl⟩
+  · intro hn
+    have hT : Z.S.T.length = 0 := hZ.empty hn
+    rcases hB with ⟨_, hn', _⟩ | ⟨_, _, ho0, hBe⟩
+    · exact absurd hn hn'
+    · refine ⟨by rw [hs2, hs1, hBe, hn]; rfl, by rw [hs2, hs1, hs0]; exact ho0, by rw [hs2]; simp [hT]⟩
+  · -- a non-empty cache means the OTI was unknown: the table is fresh
+    intro hc hn _ blk hb
+    rcases hB with ⟨ho, hn', _⟩ | ⟨_, _, _, hBe⟩
+    · exact absurd (hsim.settled ho hn') hc
+    · have hblocks : s2.blocks = B := by rw [hs2, hs1]
+      rw [hblocks, hBe] at hb
+      have := List.mem_of_getElem? hb
+      rw [List.eq_of_mem_replicate this]
+
+/-! ### the LIFO replay of the packet cache  ~  `Session.replay` -/
+
+theorem SimB.cacheIrrel {Z : Setting} {st : St} {rx : Session.ORx} (h : SimB Z st rx) (c : List Pkt) (d : List Session.Sym) :
+    SimB Z { st with cache := c } { rx with cache := d } :=
+  ⟨h.oti, h.att, h.wr, h.written, h.got, h.nodup, h.maxSz, h.attOti, h.tbl, h.quad, h.md5, h.f.of_eq rfl rfl rfl rfl⟩
+
+theorem good_cache {Z : Setting} {st : St} (hg : Good Z st) (hrec : st.state = .receiving) (c : List Pkt)
+    (hc : ∀ p ∈ c, p ∈ st.cache) : Good Z { st with cache := c } := by
+  have hl := hg.inv.live_of_receiving hrec
+  refine ⟨⟨hg.inv.noIdle, hg.inv.ps, ?_, hg.inv.bwOff, hg.inv.fdt⟩, ?_, ?_, ?_⟩
+  · intro hw
+    have := (hg.inv.term hw).2
+    exact absurd hrec this
+  · exact hg.jinv.sameJ (by constructor <;> rfl)
+  · exact ⟨⟨hg.ginv.oti, hg.ginv.tl, hg.ginv.cenc, hg.ginv.part, hg.ginv.room, fun p hp => hg.ginv.cacheGen p (hc p hp)⟩,
+      hg.ginv.blocks, hg.ginv.opened, hg.ginv.closed⟩
+  · have hcnt : CountOK st := hg.tinv.cnt.resolve_right (fun d => d.2.1 hrec)
+    exact hg.tinv.of_eq rfl rfl rfl rfl rfl rfl rfl rfl rfl rfl rfl rfl (.inl ⟨hcnt.sum, hcnt.cnt, hcnt.le⟩)
+
+theorem cacheLoop_nil (P : Params) (fuel : Nat) (st : St) (h : st.cache = []) : cacheLoop P fuel st = .ok st := by
+  cases fuel with
+  | zero => rfl
+  | succ n => unfold cacheLoop; rw [h]
+
+theorem replay_sim (Z : Setting) (hZ : Z.OK) (H : Steps Z) (hn : Z.S.n ≠ 0) :
+    ∀ (fuel : Nat) (st : St) (rx : Session.ORx) (os : Session.OState) (st' : St),
+      st.cache.length ≤ fuel → Good Z st → st.state = .receiving → st.oti.isSome = true →
+      RelB Z st os → os.obj = some rx → SimB Z st rx → (st.cache ≠ [] → Head st) →
+      st.cache.map (symOf Z.S.o) = rx.cache.map some → (∀ p ∈ st.cache, ∃ s, GenEv Z p s) →
+      cacheLoop Z.P fuel st = .ok st' →
+      RelB Z st' (Session.finish Z.oc os (Session.replay Z.dec Z.rc Z.oc rx.cache rx)) ∧ st'.cache = [] ∧
+      (st'.state ≠ .receiving → st'.blocks = []) ∧ (st = st' ∨ (st'.state = .receiving → Head st')) := by
+  intro fuel
+  induction fuel with
+  | zero =>
+    intro st rx os st' hlen hg hrec hoti hr hobj hsim hhd hmap hgen h
+    have hc : st.cache = [] := List.eq_nil_of_length_eq_zero (by omega)
+    have hrc : rx.cache = [] := by rw [hc] at hmap; simpa using hmap.symm
+    simp [cacheLoop] at h
+    subst h
+    rw [hrc]
+    refine ⟨⟨fun _ => ⟨{ rx with cache := [] }, by simp [Session.replay, Session.finish], ?_⟩, fun hh => absurd hrec hh, ?_, ?_, ?_, ?_⟩, hc, fun hh => absurd hrec hh, .inl rfl⟩
+    · have := hsim.cacheIrrel st.cache []
+      simpa using this
+    all_goals simp [Session.replay, Session.finish, hr.opens, hr.completes, hr.errors, hr.interrupts]
+  | succ n ih =>
+    intro st rx os st' hlen hg hrec hoti hr hobj hsim hhd hmap hgen h
+    cases hc : st.cache with
+    | nil =>
+      have hrc : rx.cache = [] := by rw [hc] at hmap; simpa using hmap.symm
+      rw [cacheLoop_nil _ _ _ hc] at h
+      cases h
+      rw [hrc]
+      refine ⟨⟨fun _ => ⟨{ rx with cache := [] }, by simp [Session.replay, Session.finish], ?_⟩, fun hh => absurd hrec hh, ?_, ?_, ?_, ?_⟩, hc, fun hh => absurd hrec hh, .inl rfl⟩
+      · have := hsim.cacheIrrel st.cache []
+        simpa using this
+      all_goals simp [Session.replay, Session.finish, hr.opens, hr.completes, hr.errors, hr.interrupts]
+    | cons p rest =>
+      -- the Session side has the same stack
+      cases hrc : rx.cache with
+      | nil => rw [hc, hrc] at hmap; simp at hmap
+      | cons s rs =>
+        rw [hc, hrc] at hmap
+        simp only [List.map_cons, List.cons.injEq] at hmap
+        obtain ⟨hps, hmap'⟩ := hmap
+        obtain ⟨s', g⟩ := hgen p (by rw [hc]; exact List.mem_cons_self ..)
+        have : s' = s := by have := g.sym; rw [hps] at this; cases this; rfl
+        subst this
+        -- one replayed packet
+        have hg0 : Good Z { st with cache := rest } := good_cache hg hrec rest (fun q hq => by rw [hc]; exact List.mem_cons_of_mem _ hq)
+        have hsim0 : SimB Z { st with cache := rest } { rx with cache := rs } := hsim.cacheIrrel rest rs
+        have hr0 : RelB Z { st with cache := rest } { os with obj := some { rx with cache := rs } } :=
+          ⟨fun _ => ⟨_, rfl, hsim0⟩, fun hh => absurd hrec hh, hr.opens, hr.completes, hr.errors, hr.interrupts⟩
+        unfold cacheLoop at h
+        rw [hc] at h
+        dsimp only at h
+        have hS : Session.replay Z.dec Z.rc Z.oc (s' :: rs) rx =
+            (if (Session.pushSym Z.dec Z.rc Z.oc { rx with cache := rs } s').term == .receiving
+             then Session.replay Z.dec Z.rc Z.oc rs (Session.pushSym Z.dec Z.rc Z.oc { rx with cache := rs } s').rx
+             else Session.pushSym Z.dec Z.rc Z.oc { rx with cache := rs } s') := by
+          simp [Session.replay]
+        rw [hS]
+        split at h
+        · cases h
+        · -- Err: the object errors, the replay stops
+          rename_i s1 heq
+          cases h
+          have hhd0 : Head { st with cache := rest } := hhd (by rw [hc]; simp)
+          have h2 := block_stepB Z H _ _ false _ _ p s' hg0 hr0 hrec rfl hsim0 hhd0 g hoti hn heq
+          simp only [Bool.false_eq_true, if_false] at h2
+          rw [finish_obj_irrel] at h2
+          have hterm := finish_obj_none (h2.rel.dead (by simp))
+          have : ((Session.pushSym Z.dec Z.rc Z.oc { rx with cache := rs } s').term == Session.Term.receiving) = false := by
+            cases ht : (Session.pushSym Z.dec Z.rc Z.oc { rx with cache := rs } s').term <;> simp_all
+          rw [this]
+          exact ⟨h2.rel, by simp, fun _ => by simp, .inr (fun hh => by simp at hh)⟩
+        · rename_i s1 heq
+          have hhd0 : Head { st with cache := rest } := hhd (by rw [hc]; simp)
+          have h2 := block_stepB Z H _ _ true _ _ p s' hg0 hr0 hrec rfl hsim0 hhd0 g hoti hn heq
+          simp only [if_true] at h2
+          rw [finish_obj_irrel] at h2
+          by_cases hst : s1.state = .receiving
+          · -- still receiving: go on with the rest of the stack
+            obtain ⟨rx1, hobj1, hsim1⟩ := h2.rel.live hst
+            obtain ⟨hterm, hrx1⟩ := finish_obj_some hobj1
+            have hk := (h2.keep hst).1
+            have hl0 : Live { st with cache := rest } := hg0.inv.live_of_receiving hrec
+            have hcnt0 : CountOK { st with cache := rest } := hg0.tinv.cnt.resolve_right (fun d => d.2.1 hrec)
+            obtain ⟨D⟩ := hZ.dz
+            obtain ⟨x, bx, ex, hTx, hox⟩ := tinv_pushToBlock Z.P D hg0.tinv hcnt0 (by cases hx : st.oti <;> simp_all) p
+            rw [heq] at ex; cases ex
+            have hg1 : Good Z s1 :=
+              ⟨(inv_pushToBlock _ _ _ hg0.inv hl0 heq).1, (jinv_pushToBlock _ _ _ hg0.inv hl0 hg0.jinv heq).1 rfl,
+               (ginv_pushToBlock _ _ hZ.laws _ _ hg0.inv hl0 hg0.jinv hg0.ginv g.gen heq).1 rfl, hTx⟩
+            have hcache1 : rx1.cache = rs := by rw [hrx1, pushSym_cache]
+            simp only [hterm, beq_self_eq_true, if_true]
+            have hfin : Session.finish Z.oc os (Session.pushSym Z.dec Z.rc Z.oc { rx with cache := rs } s') = { os with obj := some rx1 } := by
+              unfold Session.finish; simp [hterm, hrx1]
+            have h2r := h2.rel
+            rw [hfin] at h2r
+            have := ih s1 rx1 { os with obj := some rx1 } st' (by rw [hk]; simp; rw [hc] at hlen; simp at hlen; omega) hg1 hst
+              (by rw [hox]; exact hoti) h2r rfl hsim1 (fun _ => h2.head hst) (by rw [hk, hcache1]; exact hmap')
+              (fun q hq => hgen q (by rw [hc]; rw [hk] at hq; exact List.mem_cons_of_mem _ hq)) h
+            rw [finish_obj_irrel, hcache1] at this
+            rw [← hrx1]
+            refine ⟨this.1, this.2.1, this.2.2.1, .inr ?_⟩
+            rcases this.2.2.2 with he | he
+            · intro _; rw [← he]; exact h2.head hst
+            · exact he
+          · -- the object ended during the replay: the loop finds an empty cache
+            have hclear := (h2.clear hst).1
+            rw [cacheLoop_nil _ _ _ hclear] at h
+            cases h
+            have hterm := finish_obj_none (h2.rel.dead hst)
+            have : ((Session.pushSym Z.dec Z.rc Z.oc { rx with cache := rs } s').term == Session.Term.receiving) = false := by
+              cases ht : (Session.pushSym Z.dec Z.rc Z.oc { rx with cache := rs } s').term <;> simp_all
+            rw [this]
+            exact ⟨h2.rel, hclear, fun _ => (h2.clear hst).2, .inr (fun hh => absurd hh hst)⟩
+
+/-! ### `attach_fdt`  ~  `Session.attach` + `finish` - DISCHARGED from the block path (replay) and the flush at attach -/
+
+theorem replay_recv_cache (dec : (k p : Nat) → List Nat → Bool) (rc : Session.RxCfg) (o : Session.ObjCfg) :
+    ∀ (l : List Session.Sym) (rx : Session.ORx), (Session.replay dec rc o l rx).term = .receiving →
+      (Session.replay dec rc o l rx).rx.cache = [] := by
+  intro l
+  induction l with
+  | nil => intro rx _; rfl
+  | cons s rest ih =>
+    intro rx h
+    simp only [Session.replay] at h ⊢
+    split at h
+    · rename_i ht; simp only [ht, if_true]; exact ih _ h
+    · rename_i ht
+      exfalso
+      cases hx : (Session.pushSym dec rc o { rx with cache := rest } s).term <;> simp_all
+
+theorem SimB.sizeIrrel {Z : Setting} {st : St} {rx : Session.ORx} (h : SimB Z st rx) (n : Nat) :
+    SimB Z { st with cacheSize := n } rx :=
+  ⟨h.oti, h.att, h.wr, h.written, h.got, h.nodup, h.maxSz, h.attOti, h.tbl, h.quad, h.md5, h.f.of_eq rfl rfl rfl rfl⟩
+
+/-- `write_blocks` on an object whose deque is empty does nothing -/
+theorem writeBlocks_noblocks (P : Params) (st : St) (h : st.blocks = []) : writeBlocks P st 0 = .ok (st, true) := by
+  unfold writeBlocks
+  split
+  · rfl
+  · split
+    · rfl
+    · split
+      · rfl
+      · unfold writeLoop
+        simp [h]
+
+/-- `push_from_cache` with an empty cache: at most the size counter is reset -/
+theorem pushFromCache_empty (P : Params) (st : St) (h : st.cache = []) :
+    pushFromCache P st = .ok st ∨ pushFromCache P st = .ok { st with cacheSize := 0 } := by
+  unfold pushFromCache
+  split
+  · exact .inl rfl
+  · right
+    have : cacheLoop P st.cache.length st = .ok st := cacheLoop_nil _ _ _ h
+    rw [this]
+
+theorem cnt_open_new (f : WCall → Bool) (m : Meta) (out : List WCall) :
+    cnt f (.open true :: .new m .store :: out) = (if f (.open true) then 1 else 0) + ((if f (.new m .store) then 1 else 0) + cnt f out) := by
+  rw [cnt_cons, cnt_cons]
+
+theorem attach_live (Z : Setting) (hZ : Z.OK) (H : Steps Z) (st st' : St) (b : Bool) (os : Session.OState) (rx : Session.ORx)
+    (id : Nat) (f : FileEntry) (hg : Good Z st) (hr : Rel Z st os) (hrec : st.state = .receiving) (hobj : os.obj = some rx)
+    (hsim : SimCore Z st rx) (hatt : rx.attached = false) (fo : FileOK Z f)
+    (h : attachFdt Z.P st id (some f) = .ok (st', b)) :
+    Rel Z st' (Session.finish Z.oc { os with opens := os.opens + 1 } (Session.attach Z.dec Z.rc Z.oc rx)) := by
+  obtain ⟨s2, hrun, hg2, hst2, hsim2, hc2, hcs2, ⟨m, hout2⟩, hw2, hoti2, hempty, hoff2, hhead2⟩ :=
+    attach_prefix Z hZ st id f rx hg hrec hsim hatt fo
+  rw [hrun] at h
+  -- the relation at `s2`: one `open` more
+  have hr2 : RelB Z s2 { os with opens := os.opens + 1, obj := some { rx with attached := true, otiKnown := true } } := by
+    refine ⟨fun _ => ⟨_, rfl, hsim2⟩, fun hh => absurd hst2 hh, ?_, ?_, ?_, ?_⟩
+    · rw [hout2, cnt_open_new]; simp [isOpenOk, hr.opens]; omega
+    · rw [hout2, cnt_open_new]; simp [isComplete, hr.completes]
+    · rw [hout2, cnt_open_new]; simp [isError, hr.errors]
+    · rw [hout2, cnt_open_new]; simp [isInterrupted, hr.interrupts]
+  by_cases hn : Z.S.n = 0
+  · -- the empty object: no replay, nothing to flush
+    obtain ⟨hb, ho, hbw⟩ := hempty hn
+    have hks : Z.oc.ks.isEmpty = true := by simp [Array.isEmpty, hZ.nblocks, hn]
+    have e1 : pushFromCache Z.P s2 = .ok s2 := by unfold pushFromCache; simp [St.nbBlock, hb, ho]
+    unfold attachTail at h
+    rw [e1] at h; dsimp only at h
+    rw [writeBlocks_noblocks _ _ hb] at h; dsimp only at h
+    simp only [if_true] at h
+    rw [e1] at h; dsimp only at h
+    cases h
+    have hS : Session.attach Z.dec Z.rc Z.oc rx = { rx := { rx with attached := true, otiKnown := true }, term := .receiving } := by
+      simp [Session.attach, Session.attach.settle', hks]
+    rw [hS]
+    refine ⟨fun _ => ⟨_, by simp [Session.finish], hsim2, by rw [hc2]; exact hsim.cache,
+      fun q hq => hsim.cacheGen q (by rw [← hc2]; exact hq), by rw [hcs2]; exact hsim.cacheSize,
+      fun hh => by rw [hc2]; exact hsim.inband hh, fun _ hh => absurd hn hh,
+      fun _ blk hb' => by rw [hb] at hb'; simp at hb'⟩, fun hh => absurd hst2 hh, ?_, ?_, ?_, ?_⟩
+    · simpa [Session.finish] using hr2.opens
+    · simpa [Session.finish] using hr2.completes
+    · simpa [Session.finish] using hr2.errors
+    · simpa [Session.finish] using hr2.interrupts
+  · -- a non-empty object: replay, flush
+    have hks : Z.oc.ks.isEmpty = false := by
+      simp [Array.isEmpty, hZ.nblocks]; omega
+    have hnb2 := hsim2.tbl hoti2 hn
+    obtain ⟨D⟩ := hZ.dz
+    -- the replay
+    obtain ⟨s3, e3, hT3⟩ := tinv_cacheLoop Z.P D s2.cache.length s2 hg2.tinv (by cases hx : s2.oti <;> simp_all)
+    have hi3 := inv_cacheLoop _ _ _ hg2.inv e3
+    have hj3 := jinv_cacheLoop _ _ _ hg2.inv hg2.jinv e3
+    have hgg3 := ginv_cacheLoop _ _ hZ.laws _ _ hg2.inv hg2.jinv hg2.ginv e3
+    obtain ⟨hr3, hc3, hb3, hh3⟩ := replay_sim Z hZ H hn s2.cache.length s2 _ _ s3 (Nat.le_refl _) hg2 hst2 hoti2 hr2 rfl hsim2
+      (fun hcne => hhead2 (by rw [← hc2]; exact hcne) hn)
+      (by rw [hc2]; exact hsim.cache) (fun q hq => hsim.cacheGen q (by rw [← hc2]; exact hq)) e3
+    have e3' : pushFromCache Z.P s2 = .ok { s3 with cacheSize := 0 } := by
+      unfold pushFromCache
+      rw [if_neg (by omega), e3]
+    have hrxc : ({ rx with attached := true, otiKnown := true } : Session.ORx).cache = rx.cache := rfl
+    rw [hrxc] at hr3
+    rw [finish_obj_irrel'] at hr3
+    -- the Session side
+    have hS : Session.attach Z.dec Z.rc Z.oc rx =
+        (if (Session.replay Z.dec Z.rc Z.oc rx.cache { rx with attached := true, otiKnown := true }).term == .receiving
+         then Session.settle Z.dec Z.oc (Session.replay Z.dec Z.rc Z.oc rx.cache { rx with attached := true, otiKnown := true }).rx
+         else Session.replay Z.dec Z.rc Z.oc rx.cache { rx with attached := true, otiKnown := true }) := by
+      simp [Session.attach, Session.attach.settle', hks]
+    rw [hS]
+    unfold attachTail at h
+    rw [e3'] at h; dsimp only at h
+    have hg3' : Good Z { s3 with cacheSize := 0 } :=
+      ⟨inv_pushFromCache _ _ hg2.inv e3', jinv_pushFromCache _ _ hg2.inv hg2.jinv e3',
+       ginv_pushFromCache _ _ hZ.laws _ hg2.inv hg2.jinv hg2.ginv e3',
+       by obtain ⟨x, ex, hx⟩ := tinv_pushFromCache Z.P D hg2.tinv; rw [e3'] at ex; cases ex; exact hx⟩
+    by_cases hst3 : s3.state = .receiving
+    · -- still receiving after the replay: flush
+      obtain ⟨rx3, hobj3, hsim3⟩ := hr3.live hst3
+      obtain ⟨hterm, hrx3⟩ := finish_obj_some hobj3
+      simp only [hterm, beq_self_eq_true, if_true]
+      have hfin3 : Session.finish Z.oc { os with opens := os.opens + 1 }
+          (Session.replay Z.dec Z.rc Z.oc rx.cache { rx with attached := true, otiKnown := true }) =
+          { os with opens := os.opens + 1, obj := some rx3 } := by
+        unfold Session.finish; simp [hterm, hrx3]
+      rw [hfin3] at hr3
+      have hrx3c : rx3.cache = [] := by rw [hrx3]; exact replay_recv_cache _ _ _ _ _ hterm
+      have hatt3 : rx3.attached = true := by rw [hrx3, replay_attached]
+      split at h
+      · cases h
+      · rename_i s4 ok heq4
+        have h4 := H.flush0_step _ s4 ok _ rx3 hg3' ⟨fun _ => ⟨rx3, rfl, hsim3.sizeIrrel 0⟩, fun hh => absurd hst3 hh,
+          hr3.opens, hr3.completes, hr3.errors, hr3.interrupts⟩ hst3 rfl (hsim3.sizeIrrel 0) hatt3 hn hc3
+          (by
+            rcases hh3 with he | he
+            · left; show s3.blocksOffset = 0; rw [← he]; exact hoff2
+            · right; exact he hst3) heq4
+        rw [finish_obj_irrel'] at h4
+        rw [← hrx3]
+        -- the second `push_from_cache` finds an empty cache
+        have hcf : (if ok = true then s4 else error s4 false).cache = [] := by
+          by_cases hlive : (if ok = true then s4 else error s4 false).state = .receiving
+          · rw [(h4.keep hlive).1]; exact hc3
+          · exact (h4.clear hlive).1
+        rcases pushFromCache_empty Z.P _ hcf with e5 | e5
+        · rw [e5] at h; dsimp only at h; cases h
+          refine ⟨fun hs => ?_, h4.rel.dead, h4.rel.opens, h4.rel.completes, h4.rel.errors, h4.rel.interrupts⟩
+          obtain ⟨rx5, hobj5, hsim5⟩ := h4.rel.live hs
+          obtain ⟨_, hrx5⟩ := finish_obj_some hobj5
+          have hrx5c : rx5.cache = [] := by rw [hrx5, settle_cache, hrx3c]
+          exact ⟨rx5, hobj5, hsim5, by rw [hcf, hrx5c]; rfl, (fun q hq => by rw [hcf] at hq; cases hq),
+            by rw [(h4.keep hs).2, hrx5c]; rfl, fun _ => hcf, fun _ _ => hcf, h4.head hs⟩
+        · rw [e5] at h; dsimp only at h; cases h
+          refine ⟨fun hs => ?_, h4.rel.dead, h4.rel.opens, h4.rel.completes, h4.rel.errors, h4.rel.interrupts⟩
+          obtain ⟨rx5, hobj5, hsim5⟩ := h4.rel.live hs
+          obtain ⟨_, hrx5⟩ := finish_obj_some hobj5
+          have hrx5c : rx5.cache = [] := by rw [hrx5, settle_cache, hrx3c]
+          exact ⟨rx5, hobj5, hsim5.sizeIrrel 0, by show _ = _; rw [hrx5c]; simpa using hcf, (fun q hq => by
+              have : q ∈ (if ok = true then s4 else error s4 false).cache := hq
+              rw [hcf] at this; cases this),
+            by rw [hrx5c]; rfl, fun _ => hcf, fun _ _ => hcf, h4.head hs⟩
+    · -- the object ended during the replay: nothing left to flush
+      have hterm := finish_obj_none (hr3.dead hst3)
+      have : ((Session.replay Z.dec Z.rc Z.oc rx.cache { rx with attached := true, otiKnown := true }).term == Session.Term.receiving) = false := by
+        cases ht : (Session.replay Z.dec Z.rc Z.oc rx.cache { rx with attached := true, otiKnown := true }).term <;> simp_all
+      rw [this]
+      simp only [Bool.false_eq_true, if_false]
+      rw [writeBlocks_noblocks _ _ (by exact hb3 hst3)] at h
+      dsimp only at h
+      simp only [if_true] at h
+      have hdead : ∀ x : St, x.state = s3.state → x.out = s3.out →
+          Rel Z x (Session.finish Z.oc { os with opens := os.opens + 1 } (Session.replay Z.dec Z.rc Z.oc rx.cache { rx with attached := true, otiKnown := true })) := by
+        intro x hx hxo
+        exact ⟨fun hs => absurd (hx ▸ hs) hst3, fun _ => hr3.dead hst3, by rw [hxo]; exact hr3.opens, by rw [hxo]; exact hr3.completes,
+          by rw [hxo]; exact hr3.errors, by rw [hxo]; exact hr3.interrupts⟩
+      rcases pushFromCache_empty Z.P { s3 with cacheSize := 0 } hc3 with e5 | e5
+      · rw [e5] at h; dsimp only at h; cases h; exact hdead _ rfl rfl
+      · rw [e5] at h; dsimp only at h; cases h; exact hdead _ rfl rfl
 
 /-- `push` on a live object: the cache lemma, the two prefix lemmas, and the remaining step hypotheses -/
 theorem push_live (Z : Setting) (hZ : Z.OK) (H : Steps Z) (st st' : St) (os : Session.OState) (rx : Session.ORx) (p : Pkt)
@@ -882,7 +1660,7 @@ theorem runL_rel (Z : Setting) (hZ : Z.OK) (H : Steps Z) :
                 Session.finish Z.oc { os with opens := os.opens + 1 } (Session.attach Z.dec Z.rc Z.oc rx) := by
               simp [objStep, hobj, ha']
             rw [this]
-            exact H.attach_live st _ b os rx id f hg hr hrec hobj ha' fo heq
+            exact attach_live Z hZ H st _ b os rx id f hg hr hrec hobj hsim ha' fo heq
     · rw [if_pos hrec]
       dsimp only
       refine ih st _ hg ?_
@@ -894,7 +1672,10 @@ theorem runL_rel (Z : Setting) (hZ : Z.OK) (H : Steps Z) :
 theorem rel_new (Z : Setting) (toi : Nat) :
     Rel Z (St.new toi Z.maxSize) { obj := some Session.rx0 } := by
   refine ⟨fun _ => ⟨Session.rx0, rfl, ?_⟩, fun h => absurd rfl h, rfl, rfl, rfl, rfl⟩
-  refine ⟨rfl, rfl, fun h => by simp [St.new] at h, rfl, rfl, rfl, fun _ => rfl, ?_, List.nodup_nil, rfl, fun h => by simp [St.new] at h, fun h => by simp [St.new] at h, rfl⟩
+  refine ⟨⟨rfl, rfl, fun h => by simp [St.new] at h, rfl, ?_, List.nodup_nil, rfl, fun h => by simp [St.new] at h,
+    fun h => by simp [St.new] at h, fun h => by simp [St.new] at h, rfl,
+    ⟨fun i b h => by simp [St.new] at h, fun w h => by simp [St.new] at h, .inl rfl, by simp [St.new]⟩⟩, rfl, fun q hq => by simp [St.new] at hq, rfl, fun _ => rfl, fun _ _ => rfl,
+    fun h => by simp [St.new] at h⟩
   intro b e
   simp [Session.rx0, holds, St.new]
 
